@@ -1074,6 +1074,9 @@ class GenFunctions(object):
             else:
                 newparams.append(arg)
         new.ast.params = newparams
+        # The template arguments have been replaced.
+        # Overloads of this function need a function_suffix.
+        new.have_template_args = False
         #        self.pop_instantiate_scope()
 
         # Do not process templated node, instead process
